@@ -65,6 +65,11 @@ def cases_for(ck, quick):
             cases.append(([("fun", 1, [], [2], False, [("simple", ("raise", 2))]),
                            ("handle", ("expr", ("call", 1, [])), [(1, None, [("simple", ("pass",))])]),
                            ("fun", 2, [], list(d), False, [("simple", ("raise", 2))])], tb))
+    # every class x every candidate ancestor as the only protection (hierarchies up to depth 4); raise lists
+    # with a non-exception / undefined name in every position
+    anc = S.ancestor_corpus()
+    rl = S.raise_list_corpus()
+    cases += anc + (rl if not quick else rl[::2])
     feats = {"raise", "handle", "fun", "call", "obj", "loops", "match"}
     cases += S.random_cases(ck.rng, 500 if quick else 12000, size=(4, 14), features=feats, p_bad=0.02)
     return cases, n_ex
@@ -166,6 +171,11 @@ def run(tier, replay=None):
                  "of a raising function as statement and as initialiser, method call, print) and 7 compound forms (4 "
                  "handles with ancestor / unrelated / exact / Exception arms, if, while, match) x 5 declared sets x 3 "
                  "hierarchies of depth <= 3 (quick: a sample), fixed programs for top-level handles and non-exception "
-                 "declarations, random programs of 4..14 nodes; distinct by skeleton and tables",
+                 "declarations; the ancestor matrix (every exception class R x every exception class A as the ONLY "
+                 "protection: declared raise [A] or single arm A, for raise / call / initialiser / inside branch and "
+                 "loop, 4 hierarchies up to depth 4); raise lists with a plain or undefined class in every position "
+                 "among Exception and real exception classes, with bodies raising it and arms for it at the call, and "
+                 "all-valid controls (quick: every second one); random programs of 4..14 nodes; distinct by skeleton "
+                 "and tables",
                  samples, extra_eval=n_catch)
     return ck.finish()
